@@ -104,6 +104,11 @@ func (prom *Prometheus) RangeQuery(ctx context.Context, expr string, params Rang
 
 	var slices []TimeRange
 	queryStep := (time.Hour * 2).Round(step)
+	if queryStep < step {
+		// Round() gives zero for any step above 4h and a zero slice size
+		// would make sliceRange loop forever.
+		queryStep = step
+	}
 	if queryStep > lookback {
 		queryStep = lookback
 		slices = append(slices, TimeRange{Start: start, End: end})
